@@ -128,6 +128,57 @@ fn json_roundtrips<B: Backend>(bk: &str, sum: &mut Summary) {
     }
 }
 
+/// borsh through readers other than `&[u8]`: (a) data delivered piecewise (short reads are legal for `Read`): the outcome must be
+/// exactly the outcome on the same bytes in one slice, and what Vec<u8> / String read from the same reader; (b) a reader written in
+/// safe code that lies (claims bytes it did not write) or inspects the buffer it is handed: the library must never hand it, nor
+/// return, memory that was not initialised (the allocator monitor fills fresh blocks with 0xA5).
+fn borsh_readers<B: Backend>(bk: &str, sum: &mut Summary) {
+    struct Piecewise<'a> { data: &'a [u8], chunk: usize }
+    impl borsh::io::Read for Piecewise<'_> {
+        fn read(&mut self, buf: &mut [u8]) -> borsh::io::Result<usize> { let n = buf.len().min(self.chunk).min(self.data.len()); buf[..n].copy_from_slice(&self.data[..n]); self.data = &self.data[n..]; Ok(n) }
+    }
+    struct Liar { head: Vec<u8>, left: usize, saw_uninit: bool, wrote: usize }
+    impl borsh::io::Read for Liar {
+        fn read(&mut self, buf: &mut [u8]) -> borsh::io::Result<usize> {
+            if !self.head.is_empty() { let n = buf.len().min(self.head.len()); buf[..n].copy_from_slice(&self.head[..n]); self.head.drain(..n); return Ok(n); }
+            if buf.len() >= 8 && buf.iter().all(|&b| b == 0xA5) { self.saw_uninit = true; }
+            let n = buf.len().min(self.left); self.left -= n;
+            if n > 0 { buf[0] = b'w'; self.wrote += 1; }      // writes one byte, claims n
+            Ok(n)
+        }
+    }
+    let payloads: Vec<Vec<u8>> = vec![b"a".to_vec(), b"hello world".to_vec(), vec![b'x'; 23], vec![b'y'; 24], vec![b'z'; 300], "h\u{e9}llo \u{1F980}".as_bytes().to_vec(), vec![b'q'; 5000]];
+    for v in &payloads {
+        let enc = borsh::to_vec(v).unwrap();
+        for chunk in [1usize, 2, 3, 7, 4096] {
+            for is_str in [false, true] {
+                sum.evaluations += 1;
+                let whole: Option<Vec<u8>> = { let mut rd: &[u8] = &enc; if is_str { HipStr::<B>::deserialize_reader(&mut rd).ok().map(|h| h.as_bytes().to_vec()) } else { HipByt::<B>::deserialize_reader(&mut rd).ok().map(|h| h.as_slice().to_vec()) } };
+                let mut pr = Piecewise { data: &enc, chunk };
+                let piece: Option<Vec<u8>> = if is_str { HipStr::<B>::deserialize_reader(&mut pr).ok().map(|h| h.as_bytes().to_vec()) } else { HipByt::<B>::deserialize_reader(&mut pr).ok().map(|h| h.as_slice().to_vec()) };
+                let mut pr2 = Piecewise { data: &enc, chunk };
+                let stdv: Option<Vec<u8>> = if is_str { String::deserialize_reader(&mut pr2).ok().map(|s| s.into_bytes()) } else { Vec::<u8>::deserialize_reader(&mut pr2).ok() };
+                if piece != whole || piece != stdv {
+                    sum.violation(format!("{{\"what\":{},\"observed\":{},\"expected\":{}}}", jstr(&format!("borsh ty={} bk={} the encoding of {} bytes delivered {} byte(s) per read prof={}", if is_str { "str" } else { "byt" }, bk, v.len(), chunk, profile())),
+                        jstr(&format!("{:?}", piece.as_ref().map(|x| x.len()))), jstr(&format!("{:?} (one slice) / {:?} (std from the same reader)", whole.as_ref().map(|x| x.len()), stdv.as_ref().map(|x| x.len())))));
+                }
+            }
+        }
+    }
+    for n in [1usize, 8, 100, 5000] {
+        for is_str in [false, true] {
+            sum.evaluations += 1;
+            let mut liar = Liar { head: (n as u32).to_le_bytes().to_vec(), left: n, saw_uninit: false, wrote: 0 };
+            let got: Option<Vec<u8>> = { let rd = &mut liar; if is_str { HipStr::<B>::deserialize_reader(rd).ok().map(|h| h.as_bytes().to_vec()) } else { HipByt::<B>::deserialize_reader(rd).ok().map(|h| h.as_slice().to_vec()) } };
+            let exposed = got.as_ref().map_or(0, |g| g.iter().filter(|&&b| b == 0xA5).count());
+            if liar.saw_uninit || exposed > 0 {
+                sum.violation(format!("{{\"what\":{},\"observed\":{},\"expected\":\"only initialised memory is handed to the reader or returned\"}}", jstr(&format!("borsh ty={} bk={} length prefix {} from a reader (safe code) that claims bytes it does not write prof={}", if is_str { "str" } else { "byt" }, bk, n, profile())),
+                    jstr(&format!("the reader was handed uninitialised memory: {}; {} byte(s) of the returned value are uninitialised (0xA5 fresh-block fill)", liar.saw_uninit, exposed))));
+            }
+        }
+    }
+}
+
 /// OS strings and paths that are not UTF-8: the Hip wrappers serialise (or refuse to) exactly like OsStr / Path, and read back what std wrote
 fn json_non_utf8<B: Backend>(bk: &str, sum: &mut Summary) {
     use std::os::unix::ffi::OsStrExt;
@@ -209,7 +260,7 @@ pub fn run(out_dir: &Path, _tier: &str, _seed: u64, _rest: &[String]) {
     let mut wb = CaseWriter::new(out_dir, &format!("codec_borsh_{}", profile()), header, "Eval vm_compute in (bad_indices check_borsh cases 0).\n", 400);
     let mut ws = CaseWriter::new(out_dir, &format!("codec_serde_{}", profile()), header, "Eval vm_compute in (bad_indices check_serde cases 0).\n", 400);
     let mut seen = std::collections::HashSet::new();
-    macro_rules! all { ($b:ty, $n:expr) => { borsh_cases::<$b>($n, &mut sum, &mut wb, &mut seen); serde_cases::<$b>($n, &mut sum, &mut ws, &mut seen); json_roundtrips::<$b>($n, &mut sum); json_non_utf8::<$b>($n, &mut sum); } }
+    macro_rules! all { ($b:ty, $n:expr) => { borsh_cases::<$b>($n, &mut sum, &mut wb, &mut seen); serde_cases::<$b>($n, &mut sum, &mut ws, &mut seen); json_roundtrips::<$b>($n, &mut sum); json_non_utf8::<$b>($n, &mut sum); borsh_readers::<$b>($n, &mut sum); } }
     all!(Arc, "arc"); all!(Rc, "rc"); all!(Unique, "unique");
     wb.flush(); ws.flush();
     sum.files = wb.files.iter().chain(ws.files.iter()).cloned().collect();
